@@ -40,6 +40,7 @@ var requiredService = []string{"resPQ", "p_q_inner_data", "server_DH_params_fail
 
 func main() {
 	run := vr.New("C13", "translation_validation")
+	defer run.Recover()
 	repo := tlx.RepoDir()
 	api, err := tlx.LoadSchemas(filepath.Join(repo, "schemes/api_latest.tl"))
 	if err != nil {
